@@ -103,11 +103,16 @@ theorem Stmt.exec_unfold {trees : List OpExpr} {env : List Op} (hr : EnvRel tree
     obtain ⟨x, hx, h⟩ := bind_eq_ok h
     obtain ⟨t, ht, hte⟩ := hr.tree hx
     exact ⟨.rightDot t m, by simp [Stmt.unfold, ht], by simp only [OpExpr.eval, hte]; exact h⟩
-  | astype i =>
+  | astype i dt =>
     simp only [Stmt.exec] at h
     obtain ⟨x, hx, h⟩ := bind_eq_ok h
     obtain ⟨t, ht, hte⟩ := hr.tree hx
-    exact ⟨.astype t, by simp [Stmt.unfold, ht], by simp only [OpExpr.eval, hte]; exact h⟩
+    exact ⟨.astype t dt, by simp [Stmt.unfold, ht], by simp only [OpExpr.eval, hte]; exact h⟩
+  | rmul c i =>
+    simp only [Stmt.exec] at h
+    obtain ⟨x, hx, h⟩ := bind_eq_ok h
+    obtain ⟨t, ht, hte⟩ := hr.tree hx
+    exact ⟨.rmul c t, by simp [Stmt.unfold, ht], by simp only [OpExpr.eval, hte]; exact h⟩
   | d2u i =>
     simp only [Stmt.exec] at h
     obtain ⟨x, hx, h⟩ := bind_eq_ok h
